@@ -1,10 +1,10 @@
 SPECIFICATION Spec
 CONSTANTS
-  Producers = {1, 2}
-  NPush = 2
-  NOps = 2
-  Readers = {}
-  NReads = 0
+  Producers = {}
+  NPush = 0
+  NOps = 3
+  Readers = {10, 11, 12}
+  NReads = 2
   Variant = "code"
 INVARIANTS NoRace AnnotOK MutexOK
 PROPERTY Refines
